@@ -13,6 +13,7 @@ from .common import Clause, run_parallel
 from . import c09_gen as H
 from . import c10_gen as S
 from .c09 import check_attributes
+from . import c17_gen as L
 
 
 PROBE_SEED = 424242      # the probe family does not depend on the run seed or the tier: its violation keys are stable
@@ -113,6 +114,15 @@ def check_html_random(seed, index, max_nodes, xml):
 
 
 def check_html_tiny(tree_json):
+    return check_html_doc(H.render(json.loads(tree_json)))
+
+
+def check_html_shapes(seed, index, max_nodes):
+    """token-list attributes (class and others) in every value shape: bool / dq / sq / unq / expr"""
+    return check_html_doc(L.generate(seed, index, max_nodes))
+
+
+def check_html_shapes_small(tree_json):
     return check_html_doc(H.render(json.loads(tree_json)))
 
 
@@ -279,6 +289,28 @@ def run(tier, seed):
                bound='%d trees of <= %d nodes; every position 0..len(doc); get_open_tag, select_item_html next and previous' % (ntrees, size),
                rule='a case is one generated document; distinct by (seed, index, size, mode)', exhaustive=False)
     run_parallel(c, 'bounded.c17', 'check_html_random', ((seed, i, size, i % 2) for i in range(ntrees)), chunk=max(1, ntrees // 56))
+    c.done()
+    out.append(c)
+
+    nshapes, shsize = (200, 8) if quick else (1500, 24)
+    c = Clause('html-actions-value-shapes', 'B',
+               generator='bounded/c17_gen.py documents (seed %d): token-list attributes (`class`, and `className` / `rel` / `id` ... '
+                         'which get no token ranges) as boolean, double-quoted, single-quoted, unquoted and expression `{...}` '
+                         'values; 0..4 atoms separated / surrounded by blank, tab, new-line, CR LF; expression atoms with nested '
+                         'brackets, braces and quoted pieces' % seed,
+               bound='%d trees of <= %d nodes; every position 0..len(doc); get_open_tag, select_item_html next and previous' % (nshapes, shsize),
+               rule='a case is one generated document; distinct by (seed, index, size)', exhaustive=False)
+    run_parallel(c, 'bounded.c17', 'check_html_shapes', ((seed, i, shsize) for i in range(nshapes)), chunk=max(1, nshapes // 56))
+    c.done()
+    out.append(c)
+
+    c = Clause('html-actions-value-shapes-small-exhaustive', 'B',
+               generator='bounded/c17_gen.py small_trees(): one tag (open with text; self-closing after text in two of the neighbourhoods) with one list attribute '
+                         '(`class`: dq, sq, expr, unq, bool; `rel`: dq, expr, bool) x every value of <= 3 atoms from {a, bb} with '
+                         'separators blank / two blanks / new-line and optional leading / trailing blank x 4 neighbourhoods of other '
+                         'attributes', bound='the complete family (same in both tiers); every position',
+               rule='a case is one document; distinct by tree', exhaustive=True)
+    run_parallel(c, 'bounded.c17', 'check_html_shapes_small', ((json.dumps(t),) for t in L.small_trees()), chunk=150)
     c.done()
     out.append(c)
 
